@@ -7,7 +7,8 @@
    Eups.getDependentProducts; [users idx x ov] is Uses.users on the index built by Eups.uses.
    [step w p q]: some line of the table of p denotes q.  [reach_plus w p q]: one or more steps. *)
 From Eupsv Require Import Base.Base Model.Graph Proofs.GraphLib Proofs.GraphWalk Proofs.GraphListing
-     Proofs.GraphLayers Proofs.GraphTarjan Proofs.GraphPartition Proofs.GraphOrder.
+     Proofs.GraphLayers Proofs.GraphTarjan Proofs.GraphPartition Proofs.GraphOrder
+     Proofs.GraphTarjanLib Proofs.GraphTarjanFull Proofs.GraphTotal.
 Open Scope string_scope.
 
 (* ------------------------------------------------------------------ completeness of the listing *)
@@ -57,7 +58,8 @@ Proof. exact (comp_layers_yields check g cs L). Qed.
 Print Assumptions layer_index_meaning.
 
 (* Tarjan's algorithm as written reports, on a graph without cycles, every node as a component
-   of its own - so that on such graphs every edge is ordered by the previous theorem *)
+   of its own - so that on such graphs every edge is ordered by the previous theorem (the general
+   statement, cycles included, is tarjan_correct below) *)
 Theorem dag_components_singleton g cs :
   acyclic g -> closed_graph g -> scc g = Ok cs ->
   (forall c, In c cs -> exists x, c = [x] /\ In x (gkeys g)) /\ (forall n, In n (gkeys g) -> In [n] cs).
@@ -109,7 +111,7 @@ Print Assumptions listed_after_its_users.
 
 (* ------------------------------------------------------------------ cycles are reported *)
 
-(* Independent of the correctness of Tarjan on cyclic graphs: whenever
+(* Independent of the correctness of Tarjan on cyclic graphs and of the keys being distinct: whenever
    topologicalSort(checkCycles=True) returns normally the graph has no cycle.  A cycle therefore
    never passes: the call ends in RuntimeError ([Err Refused] from the component test or
    [Err Crash] from the left-over test of the layering loop). *)
@@ -123,6 +125,109 @@ Theorem cycle_reported g0 :
   ~ acyclic (prepare g0) -> exists e, check_cycles g0 = Err e /\ e <> OutOfFuel.
 Proof. exact (cycle_is_reported g0). Qed.
 Print Assumptions cycle_reported.
+
+(* With Tarjan's algorithm proved correct on every graph (tarjan_correct below) the outcome of the
+   check is known exactly.  The graph is a python dict, so its keys are distinct; on such a graph a
+   cycle makes topologicalSort(checkCycles=True) raise the RuntimeError of the component test
+   ([Err Refused]: a component with more than one product; self dependencies were discarded by
+   prepare) - never the left-over error of the layering loop ([Err Crash]) - ... *)
+Theorem cycle_reported_refused g0 :
+  NoDup (gkeys g0) -> ~ acyclic (prepare g0) -> check_cycles g0 = Err Refused.
+Proof. exact (check_cycles_refused g0). Qed.
+Print Assumptions cycle_reported_refused.
+
+(* ... and a graph without cycles passes: the check raises exactly on the graphs that have a cycle *)
+Theorem cycle_check_complete g0 :
+  NoDup (gkeys g0) -> acyclic (prepare g0) -> exists NL, check_cycles g0 = Ok NL.
+Proof. exact (check_cycles_passes g0). Qed.
+Print Assumptions cycle_check_complete.
+
+(* the graphs getDependentProducts hands to topologicalSort (productDictionary, prepared) do have
+   distinct keys *)
+Theorem topological_sort_graph_keys_distinct fuel w top g :
+  topo_graph fuel w top = Ok g -> NoDup (gkeys g).
+Proof. exact (topo_graph_keys_nodup fuel w top g). Qed.
+Print Assumptions topological_sort_graph_keys_distinct.
+
+(* ------------------------------------------------------------------ Tarjan's algorithm, in general *)
+
+(* utils.stronglyConnectedComponents as written (low links in one dict with the visiting numbers,
+   finished nodes marked len(graph), fuel = number of nodes + 1) answers on every graph with distinct
+   keys that is closed under successors, cyclic or not, and its answer is a partition of the nodes
+   into strongly connected sets listed in reverse topological order: an edge leaving a component
+   goes to a component listed earlier ([cidx cs x] = position of the component of x;
+   [gstar] = reflexive-transitive closure of the edges) *)
+Theorem tarjan_correct g :
+  NoDup (gkeys g) -> closed_graph g ->
+  exists cs, scc g = Ok cs /\
+    NoDup (concat cs) /\
+    (forall n, In n (gkeys g) <-> In n (concat cs)) /\
+    (forall c, In c cs -> c <> [] /\ forall a b, In a c -> In b c -> gstar g a b) /\
+    (forall x y, In x (concat cs) -> gedge g x y -> In y (concat cs) /\ cidx cs y <= cidx cs x).
+Proof.
+  intros Hn Hc. destruct (scc_correct g Hn Hc) as [cs [E [S1 S2 S3 S4]]]. exists cs. auto.
+Qed.
+Print Assumptions tarjan_correct.
+
+(* hence the components are maximal: two nodes share a component exactly when each reaches the
+   other - the components ARE the strongly connected components (same conclusion as
+   partition_checker_sound, now for every graph instead of per tested graph) *)
+Theorem tarjan_components g cs :
+  NoDup (gkeys g) -> closed_graph g -> scc g = Ok cs ->
+  NoDup (concat cs) /\
+  (forall n, In n (gkeys g) <-> In n (concat cs)) /\
+  (forall a b, In a (gkeys g) -> In b (gkeys g) ->
+     (same_comp cs a b <-> a = b \/ (gpath g a b /\ gpath g b a))).
+Proof.
+  intros Hn Hc E. destruct (scc_correct g Hn Hc) as [cs' [E' S]]. rewrite E in E'. inversion E'. subst cs'.
+  split; [apply (ss_nodup _ _ S)|]. split; [apply (ss_cover _ _ S)|]. apply (scc_spec_components_path g cs S).
+Qed.
+Print Assumptions tarjan_components.
+
+(* ------------------------------------------------------------------ the topological pipeline always answers *)
+
+(* topologicalSort itself: without checkCycles on every graph (the component graph of a correct
+   component list is acyclic, so the layering loop always finds a component without successors and
+   its left-over RuntimeError is unreachable), with checkCycles on every graph without cycles *)
+Theorem topological_sort_total check g0 :
+  NoDup (gkeys g0) -> (check = false \/ acyclic (prepare g0)) -> exists NL, topo_layers check g0 = Ok NL.
+Proof. exact (topo_layers_total check g0). Qed.
+Print Assumptions topological_sort_total.
+
+(* getDependentProducts(topological=True) answers on EVERY world, cyclic or not, with the fuel the
+   correspondence check uses (number of declared products + 2), and its answer is the complete,
+   duplicate-free listing in ascending depth: walk_complete_topological and listing_ascending are
+   unconditional *)
+Theorem topological_listing_total w top fuel :
+  length w < fuel ->
+  exists l, dependent_products fuel w top true = Ok l /\
+    (forall q, In q (map enode l) <-> q <> top /\ reach_plus w top q) /\ NoDup (map enode l) /\
+    Sorted.StronglySorted depth_le l.
+Proof.
+  intros Hf. destruct (dependent_products_total w top fuel Hf) as [l E]. exists l. split; [exact E|].
+  destruct (listing_topological node_cmp w top fuel l Hf E) as [H1 H2]. split; [exact H1|]. split; [exact H2|].
+  exact (listing_sorted node_cmp fuel w top l E).
+Qed.
+Print Assumptions topological_listing_total.
+
+(* on closures without cycles (and one version per product name: the negation of D16) the listing
+   exists and is a safe build order: build_order_safe and listed_after_its_users without the premise
+   that the call returned *)
+Theorem topological_listing_total_on_dags w top fuel :
+  length w < fuel -> wf_world w -> one_version_per_name w top -> acyclic_from w top ->
+  exists l, dependent_products fuel w top true = Ok l /\
+    (forall q, In q (map enode l) <-> q <> top /\ reach_plus w top q) /\ NoDup (map enode l) /\
+    Sorted.StronglySorted depth_le l /\
+    (forall x y, In x l -> In y l -> step w (enode x) (enode y) -> edepth x < edepth y) /\
+    (forall l1 y l2 x, l = l1 ++ y :: l2 -> In x l2 -> ~ step w (enode x) (enode y)).
+Proof.
+  intros Hf Hw Ho Ha. destruct (topological_listing_total w top fuel Hf) as [l [E [H1 [H2 H3]]]].
+  exists l. split; [exact E|]. split; [exact H1|]. split; [exact H2|]. split; [exact H3|]. split.
+  - exact (build_order_safe w top fuel l Hf Hw Ho Ha E).
+  - intros l1 y l2 x. exact (listed_after_its_users w top fuel l l1 y l2 x Hf Hw Ho Ha E).
+Qed.
+Print Assumptions topological_listing_total_on_dags.
+
 
 (* ------------------------------------------------------------------ uses *)
 
@@ -163,11 +268,21 @@ Theorem users_total idx x ov : exists us, users idx x ov = Ok us.
 Proof. destruct (users_total_ok idx x ov) as [us [E _]]. eauto. Qed.
 Print Assumptions users_total.
 
+(* Eups.uses answers on every world: the index of all topological listings exists, and the query
+   over it never raises (users_total) *)
+Theorem uses_total w fuel x ov : length w < fuel -> exists us, uses fuel w x ov = Ok us.
+Proof.
+  intros Hf. unfold uses. destruct (uses_index_total w fuel Hf) as [idx E]. rewrite E. apply users_total.
+Qed.
+Print Assumptions uses_total.
+
 (* ------------------------------------------------------------------ the partition checker *)
 
-(* Full correctness of Tarjan on cyclic graphs is not proved.  Instead the component list the model
-   computes is validated, for every graph the correspondence check meets, by this checker, which
-   is sound: what it accepts is the partition into strongly connected components.  (Testing.) *)
+(* Tarjan's algorithm is proved correct on every graph (tarjan_correct, tarjan_components above), so
+   no claim rests on this checker any more.  The correspondence check still runs it on the component
+   list of every graph it meets, as an extra comparison of the extracted model with an independent
+   executable statement of what a partition into strongly connected components is; the checker is
+   sound: *)
 Theorem partition_checker_sound g cs :
   partition_ok g cs = true ->
   NoDup (concat cs) /\
@@ -202,6 +317,40 @@ Proof.
   - eapply rp_more; [exists [ed "b" None (Some "1") false], (ed "b" None (Some "1") false); repeat split; simpl; auto|].
     apply rp_one. eexists _, (ed "a" (Some "1") (Some "1") true). split; [reflexivity|]. split; [right; left; reflexivity | reflexivity].
   - eexists. split; vm_compute; reflexivity.
+Qed.
+
+(* Tarjan on graphs with cycles: the graph of the cyclic world above (distinct keys, closed), and a
+   graph with two cycles joined by an edge - the component reached is listed first *)
+Definition g_two_cycles : graph :=
+  [ (nd "a" "1", [nd "b" "1"]); (nd "b" "1", [nd "c" "1"; nd "d" "1"]); (nd "c" "1", [nd "a" "1"]);
+    (nd "d" "1", [nd "e" "1"]); (nd "e" "1", [nd "d" "1"]) ].
+
+Example tarjan_on_cyclic_graphs :
+  (exists g, topo_graph 4 w_cyclic (nd "a" "1") = Ok g /\ NoDup (gkeys g) /\ closed_graph g /\
+             scc g = Ok [ [nd "c" "1"]; [nd "a" "1"; nd "b" "1"] ]) /\
+  NoDup (gkeys g_two_cycles) /\ closed_graph g_two_cycles /\
+  scc g_two_cycles = Ok [ [nd "d" "1"; nd "e" "1"]; [nd "a" "1"; nd "b" "1"; nd "c" "1"] ] /\
+  check_cycles g_two_cycles = Err Refused.
+Proof.
+  split.
+  - eexists. split; [vm_compute; reflexivity|].
+    match goal with |- NoDup (gkeys ?g) /\ _ => destruct (graph_ok_by_computation g) as [H1 H2]; [vm_compute; reflexivity|] end.
+    split; [exact H1|]. split; [exact H2|]. vm_compute. reflexivity.
+  - destruct (graph_ok_by_computation g_two_cycles) as [H1 H2]; [vm_compute; reflexivity|].
+    split; [exact H1|]. split; [exact H2|]. split; vm_compute; reflexivity.
+Qed.
+
+(* why the keys must be distinct (they are: the graph is a python dict).  An association list that
+   names a twice is not a dict; succs_of reads the first entry, the component graph is built from
+   all of them, and the cycle a -> b -> a ends in the left-over error of the layering loop *)
+Example cycle_refused_needs_distinct_keys :
+  let g0 := [ (nd "a" "1", []); (nd "a" "1", [nd "b" "1"]); (nd "b" "1", [nd "a" "1"]) ] in
+  gpath (prepare g0) (nd "a" "1") (nd "a" "1") /\ check_cycles g0 = Err Crash.
+Proof.
+  split; [|vm_compute; reflexivity].
+  apply gp_more with (b := nd "b" "1"); [|apply gp_one].
+  - exists [nd "b" "1"]. split; [vm_compute; right; left; reflexivity | left; reflexivity].
+  - exists [nd "a" "1"]. split; [vm_compute; right; right; left; reflexivity | left; reflexivity].
 Qed.
 
 (* the hypotheses of build_order_safe are inhabited by a diamond with a shared sub-tree, an optional
